@@ -288,6 +288,63 @@ def run(ctx):
             got = rows(loc.get_windows(window_size=ws).get_data())
             exp = [(c, max(0, p - ws // 2), min(sizes[c], p + ws // 2 + ws % 2)) for c, p in pos]
             ctx.check("get_windows", got == exp, "get_windows/window_size", "get_windows(window_size=%d) gave %r expected %r" % (ws, got, exp), dict(wit, positions=pos, window_size=ws, got=got, expected=exp), (key, tuple(pos), ws, "ws"))
+        # the same operations on intervals / locations handed over as a STREAM of chunks (grouped by chromosome in genome order, any order inside a chromosome)
+        def streamed_ops():
+            from bionumpy.streams import NpDataclassStream
+            grouped = sorted(pushed, key=lambda t: names.index(t[0]))          # stable: the order inside a chromosome is whatever it was
+            if shuffled is False:
+                # also inside a chromosome: not sorted by position
+                by = {n: [x for x in grouped if x[0] == n] for n in names}
+                for n in names:
+                    r.shuffle(by[n])
+                grouped = [x for n in names for x in by[n]]
+            cut = r.randint(0, len(grouped))
+            mk = lambda rws: Interval([x[0] for x in rws], np.array([x[1] for x in rws], dtype=int), np.array([x[2] for x in rws], dtype=int))
+            st = lambda rws: NpDataclassStream(iter([mk(p_) for p_ in (rws[:cut], rws[cut:]) if p_]), dataclass=Interval)
+            cl = genome.get_intervals(st(grouped)).clip()
+            got = bnp.compute((cl.start, cl.stop))
+            got = list(zip(np.asarray(got[0]).tolist(), np.asarray(got[1]).tolist()))
+            exp = [(max(0, a), min(sizes[c], b)) for c, a, b in grouped]
+            ctx.check("clip", got == exp, "clip/per-chromosome:streamed-intervals", "clip() of streamed intervals gave %r, single-contig model %r" % (got[:6], exp[:6]), dict(wit, rows=grouped, got=got[:12], expected=exp[:12]), nt and (nt, "sclip", tuple(grouped), cut))
+            # windows around streamed locations (the start of one-base intervals)
+            locs = [(c, r.randint(0, sizes[c] - 1)) for c in names for _ in range(r.randint(0, 3))]
+            if locs:
+                rows1 = [(c, p_, p_ + 1) for c, p_ in locs]
+                cut2 = r.randint(0, len(rows1))
+                st2 = lambda: NpDataclassStream(iter([mk(p_) for p_ in (rows1[:cut2], rows1[cut2:]) if p_]), dataclass=Interval)
+                ws = r.randint(1, 9)
+                w = genome.get_intervals(st2()).get_location("start").get_windows(window_size=ws)
+                g = bnp.compute((w.start, w.stop))
+                g = list(zip(np.asarray(g[0]).tolist(), np.asarray(g[1]).tolist()))
+                e = [(max(0, p_ - ws // 2), min(sizes[c], p_ + ws // 2 + ws % 2)) for c, p_ in locs]
+                ctx.check("get_windows", g == e, "get_windows/window_size:streamed-locations", "get_windows(window_size=%d) of streamed locations gave %r expected %r" % (ws, g[:6], e[:6]), dict(wit, locations=locs, window_size=ws, got=g, expected=e), (key, tuple(locs), ws, "sws"))
+                fl = r.randint(0, 4)
+                w = genome.get_intervals(st2()).get_location("start").get_windows(flank=fl)
+                g = bnp.compute((w.start, w.stop))
+                g = list(zip(np.asarray(g[0]).tolist(), np.asarray(g[1]).tolist()))
+                e = [(max(0, p_ - fl), min(sizes[c], p_ + fl + 1)) for c, p_ in locs]
+                ctx.check("get_windows", g == e, "get_windows/flank:streamed-locations", "get_windows(flank=%d) of streamed locations gave %r expected %r" % (fl, g[:6], e[:6]), dict(wit, locations=locs, flank=fl, got=g, expected=e), (key, tuple(locs), fl, "sfl"))
+            ctx.count("streamed_interval_operations")
+        guard("streamed-intervals", streamed_ops)
+        # a table grouped by chromosome, but the chromosomes in another order than the genome's: merging gives each chromosome its own merged entries, or refuses
+        if len(names) >= 2:
+            other_order = list(names)
+            r.shuffle(other_order)
+            if other_order != names:
+                regrouped = [x for n in other_order for x in ivs_sorted if x[0] == n]
+                try:
+                    mg = rows(genome.get_intervals(tbl(regrouped)).merged().get_data())
+                except Exception as e:
+                    from bnpmon.ctx import originates_in_library
+                    if not originates_in_library(e) and type(e).__name__ != "GenomeError":
+                        raise
+                    mg = None
+                    ctx.count("merged_refused_for_another_chromosome_order")
+                if mg is not None:
+                    expm = {n: merge_model(mine_sorted[n], 0) for n in names}
+                    gotm = per_chrom(mg, names)
+                    ctx.check("merged", all(gotm.get(n, []) == expm[n] for n in names), "merged/per-chromosome:chromosomes-in-another-order-than-the-genome", "merged() of a table ordered %r gave %r, single-contig model %r" % (other_order, gotm, expm),
+                              dict(wit, order=other_order, got=mg[:12]), nt and (nt, "mgo", tuple(other_order)))
         # values under intervals
         dense = {n: np.array([r.randint(0, 5) for _ in range(sizes[n])], dtype=int) for n in names}
         recs = [(n, i, i + 1, int(dense[n][i])) for n in names for i in range(sizes[n])]
